@@ -414,6 +414,22 @@ func c07Property(t *rapid.T) {
 	}
 	logonCycle(t)
 	resetClock := time.Date(2024, 5, 6, 11, 0, 0, 0, time.UTC)
+	afterNoon, quietTicks := false, 0
+	quiet := func(now time.Time, what string) {
+		ctx := s.ctxFor("resetcheck", nil, false)
+		st := s.r.CheckResetTime(now)
+		s.logf("%s (virtual clock %s)", what, now.Format("Jan 2 15:04"))
+		s.observe(st, ctx)
+		resets := 0
+		for _, e := range s.r.Entries(st) {
+			if e.Kind == "store.Reset" {
+				resets++
+			}
+		}
+		if outs := s.r.Outs(st); resets > 0 || len(outs) > 0 {
+			vk.Violation(t, c, "C07/reset-time-acts-without-crossing", "%s: %d store resets, %d messages sent although the reset time was not crossed while connected\n%s", what, resets, len(outs), s.history())
+		}
+	}
 	t.Repeat(map[string]func(*rapid.T){
 		"traffic": func(t *rapid.T) {
 			if !s.r.V.IsLoggedOn() {
@@ -531,20 +547,49 @@ func c07Property(t *rapid.T) {
 				s.p.NextOut = s.r.T()
 			}
 		},
+		"quietTick": func(t *rapid.T) {
+			// a once-a-second tick that does not cross the reset time (it is 11:xx, or already past
+			// noon after the time went by while nobody was connected): nothing is reset, nothing sent
+			if !o.resetSeqTime || quietTicks >= 50 {
+				return
+			}
+			quietTicks++
+			resetClock = resetClock.Add(time.Minute)
+			quiet(resetClock, "quiet tick")
+			if afterNoon && s.r.V.IsLoggedOn() {
+				mon.feat["tick-after-the-reset-time-went-by-while-down"] = true
+				// next day, 11:00
+				resetClock = time.Date(resetClock.Year(), resetClock.Month(), resetClock.Day()+1, 11, 0, 0, 0, time.UTC)
+				afterNoon, quietTicks = false, 0
+			}
+		},
+		"resetTimeWhileDown": func(t *rapid.T) {
+			// the configured time goes by while nobody is connected: that resets nothing, neither now
+			// nor at the first tick after the next logon
+			if !o.resetSeqTime || s.r.V.IsConnected() || afterNoon {
+				return
+			}
+			quiet(resetClock, "tick before the reset time, not connected")
+			resetClock = time.Date(resetClock.Year(), resetClock.Month(), resetClock.Day(), 13, 0, 0, 0, time.UTC)
+			quiet(resetClock, "tick after the reset time, not connected")
+			afterNoon, quietTicks = true, 0
+			mon.feat["reset-time-went-by-while-down"] = true
+		},
 		"resetTime": func(t *rapid.T) {
-			if !o.resetSeqTime || !s.r.V.IsLoggedOn() {
+			if !o.resetSeqTime || !s.r.V.IsLoggedOn() || afterNoon {
 				return // no ResetSeqTime / not logged on (a no-op step: rapid gives up when too many draws in a row are skipped)
 			}
 			// two run-loop ticks: one before, one after the configured reset time
 			ctx := s.ctxFor("resetcheck", nil, false)
 			st := s.r.CheckResetTime(resetClock)
 			s.observe(st, ctx)
-			resetClock = resetClock.Add(2 * time.Hour)
+			resetClock = time.Date(resetClock.Year(), resetClock.Month(), resetClock.Day(), 13, 0, 0, 0, time.UTC)
 			ctx = s.ctxFor("resetcheck", nil, false)
 			st = s.r.CheckResetTime(resetClock)
 			s.observe(st, ctx)
 			s.logf("reset time crossed (virtual clock %s)", resetClock.Format("15:04"))
-			resetClock = resetClock.Add(22 * time.Hour)
+			resetClock = time.Date(resetClock.Year(), resetClock.Month(), resetClock.Day()+1, 11, 0, 0, 0, time.UTC)
+			quietTicks = 0
 			sent := false
 			for _, e := range s.r.Outs(st) {
 				if e.MsgType == "A" && fixwire.GetS(e.Fields, 141) == "Y" {
